@@ -89,7 +89,7 @@ contract('gnpy.core.network.compute_gain_power_and_tilt_target', props=['C09', '
                                                 'dp == target_power(network, next_node, equipment, deviation_db) + voa)'),
                   ('operator_gain_kept_in_gain_mode', 'implies(not power_mode and node.effective_gain is not None, gain == node.effective_gain)'),
                   ('tilt', 'result[2] == (node.operational.tilt_target if node.operational.tilt_target is not None else -tilt_target)')],
-         use_at_calls=False, modifies=[])
+         returns=tup(real(), real(), real(), real(), real(), real()), modifies=[])
 
 # ---------------------------------------------------------------- C10 amplifier selection
 def AMP_LIB(raman):
@@ -128,3 +128,62 @@ contract('gnpy.core.network.select_edfa', props=['C10'],
                   for k in 'ABC'] +
                  [('no_reduction_if_capable', ' and '.join(f"implies(v == '{j}' and {_caps[j]}, result[1] == 0)" for j in 'ABC'))],
          use_at_calls=False, modifies=[], max_paths=3000)
+
+
+# ---------------------------------------------------------------- set_one_amplifier, operator-chosen model
+LIB_A = obj('<ns>', p_max=real(), gain_flatmax=real(), gain_min=real(), raman=const(False), type_def=const('variable_gain'))
+AMP_FIXED = extend(AMPN, params=obj('EdfaParams', p_max=real(), gain_flatmax=real(), gain_min=real(), out_voa_auto=boolean(),
+                                   type_variety=const('A'), raman=const(False)))
+EQPT_FULL = dct(Span=dct(default=SPAN), Edfa=dct(A=LIB_A))
+contract('gnpy.core.network.set_one_amplifier', name='gnpy.core.network.set_one_amplifier[operator-chosen model]',
+         props=['C09', 'C08', 'C17'],
+         params={'node': AMP_FIXED, 'prev_node': obj('Fused'), 'next_node': obj('Fiber'), 'power_mode': boolean(),
+                 'prev_voa': real(), 'prev_dp': real(), 'pref_ch_db': real(), 'pref_total_db': real(),
+                 'network': obj('<ns>'), 'restrictions': lst(), 'equipment': EQPT_FULL, 'verbose': const(False),
+                 'deviation_db': real(), 'tilt_target': real()}, spec=SPEC_NET,
+         let={'sp': "equipment['Span']['default']", 'lib': "equipment['Edfa']['A']",
+              'tgt': 'compute_gain_power_and_tilt_target(old(node), prev_node, next_node, power_mode, prev_voa, prev_dp, pref_total_db, network, equipment, deviation_db, tilt_target)',
+              'pout': '(pref_total_db + tgt[3] if power_mode else pref_total_db + prev_dp - tgt[5] - prev_voa + tgt[0])',
+              'red': '(0 if lib.p_max - pout >= 0 else lib.p_max - pout)'},
+         requires=[('step', 'round(sp.delta_power_range_db[2], 1) >= 0.01 and round(sp.voa_step, 1) >= 0.01'),
+                   ('range', 'sp.delta_power_range_db[0] <= sp.delta_power_range_db[1]'),
+                   ('same_model', 'node.params.p_max == lib.p_max and node.params.gain_flatmax == lib.gain_flatmax')],
+         ensures=[('complete', 'node.effective_gain is not None and node.out_voa is not None and node.in_voa is not None and '
+                               'node.tilt_target is not None and implies(power_mode, node.delta_p is not None)'),
+                  # total design power never above p_max; the reduction is exactly what is needed
+                  ('reduced_only_as_needed', 'result[0] == tgt[3] + red'),
+                  ('no_saturation_by_design', 'implies(power_mode, pref_total_db + result[0] <= lib.p_max)'),
+                  ('gain_follows', 'node.effective_gain - node.out_voa == tgt[0] + red - (old(node.out_voa) if old(node.out_voa) is not None else 0) '
+                                   'or old(node.out_voa) is None'),
+                  ('gain_before_voa', 'implies(old(node.out_voa) is not None, node.effective_gain == tgt[0] + red)'),
+                  ('operator_values_kept_unless_saturating', 'implies(red == 0 and not power_mode and old(node.effective_gain) is not None, '
+                                                             'node.effective_gain - (node.out_voa if old(node.out_voa) is None else 0) == old(node.effective_gain))'),
+                  ('hand_over', 'result[1] == tgt[4]'),
+                  ('design_offset_recorded', 'node._delta_p == (node.delta_p if power_mode else result[0])')],
+         modifies=['node.delta_p', 'node.effective_gain', 'node.tilt_target', 'node.out_voa', 'node.in_voa', 'node._delta_p',
+                   'node.target_pch_out_dbm'], use_at_calls=False, max_paths=3000)
+
+# ---------------------------------------------------------------- C06: per-degree targets populated at design
+RP = obj('<ns>', target_pch_out_db=opt(real()), target_psd_out_mWperGHz=opt(real()), target_out_mWperSlotWidth=opt(real()))
+for _given in ('none', 'pch', 'psd', 'psw'):
+    _d = {'per_degree_pch_out_dbm': dct_k({'deg': real()}) if _given == 'pch' else dct(),
+          'per_degree_pch_psd': dct_k({'deg': real()}) if _given == 'psd' else dct(),
+          'per_degree_pch_psw': dct_k({'deg': real()}) if _given == 'psw' else dct()}
+    contract('gnpy.core.network.set_roadm_per_degree_targets',
+             name=f'gnpy.core.network.set_roadm_per_degree_targets[loop body, degree setting: {_given}]', loop=0,
+             props=['C06', 'C08'], use_at_calls=False,
+             params={'roadm': obj('Roadm', uid=string(), params=RP, **_d), 'node': obj('Fiber', uid=const('deg'))},
+             let={'n_pch': "(1 if 'deg' in roadm.per_degree_pch_out_dbm else 0)", 'n_psd': "(1 if 'deg' in roadm.per_degree_pch_psd else 0)",
+                  'n_psw': "(1 if 'deg' in roadm.per_degree_pch_psw else 0)", 'p': 'roadm.params'},
+             # a node without any equalisation target cannot be designed; any value (0 dBm included) is a target
+             raises=({'ConfigurationError': 'p.target_pch_out_db is None and p.target_psd_out_mWperGHz is None and '
+                                            'p.target_out_mWperSlotWidth is None'} if _given == 'none' else {}),
+             ensures=[('exactly_one_policy_on_the_degree', 'n_pch + n_psd + n_psw == 1')] +
+                     ([('user_value_kept', {'pch': "roadm.per_degree_pch_out_dbm['deg'] == old(roadm.per_degree_pch_out_dbm['deg'])",
+                                            'psd': "roadm.per_degree_pch_psd['deg'] == old(roadm.per_degree_pch_psd['deg'])",
+                                            'psw': "roadm.per_degree_pch_psw['deg'] == old(roadm.per_degree_pch_psw['deg'])"}[_given])]
+                      if _given != 'none' else
+                      [('node_level_value_used', "implies(n_pch == 1, roadm.per_degree_pch_out_dbm['deg'] == p.target_pch_out_db) and "
+                                                 "implies(n_psd == 1, roadm.per_degree_pch_psd['deg'] == p.target_psd_out_mWperGHz) and "
+                                                 "implies(n_psw == 1, roadm.per_degree_pch_psw['deg'] == p.target_out_mWperSlotWidth)")]),
+             modifies=['roadm.per_degree_pch_out_dbm[*]', 'roadm.per_degree_pch_psd[*]', 'roadm.per_degree_pch_psw[*]'])
